@@ -46,6 +46,9 @@ theorem code_shape :
     Generated.C09.deleteJournalRechecksSize = true ∧ Generated.C09.deleteJournalSyncsBeforeRecheck = true ∧
     -- deleteJournal removes the partition's own folder from the disk, nothing above it
     Generated.C09.deleteJournalRemovesOwnFolderOnly = true ∧
+    -- 46009da (F77): the MAXDBSIZE pass accounts for and reports what it removed also when the drop is refused;
+    -- 4d9dcd4 (F56, statement vs statement): Service.Truncate is serialised by a mutex
+    Generated.C09.globalAccountsWhenDropRefused = true ∧ Generated.C09.truncateSerialized = true ∧
     -- the visitor of Service.Truncate flushes before it looks at the partition's size, dry run included (466355c)
     Generated.C09.truncateVisitorSyncsBeforeSize = true ∧
     -- cac5c5d: equal latest timestamps are ordered by source id
